@@ -1197,6 +1197,18 @@ class Interp(object):
             r = self.sum_comprehension(e.args[0], frame, e)
             if r is not NotImplemented:
                 return r
+        if isinstance(e.func, ast.Name) and e.func.id == 'super' and not e.args and not e.keywords:
+            # zero-argument super(): class from the function's __class__ cell, object = first parameter
+            fr = frame
+            while fr is not None and fr.fn is None:
+                fr = fr.parent
+            fn = fr.fn if fr is not None else None
+            cls = extract.free_names(fn).get('__class__') if fn is not None else None
+            if cls is None:
+                raise Unsupported('super() outside a method')
+            fnode = extract.func_ast(fn)
+            first = fnode.args.args[0].arg
+            return super(cls, self.lookup(first, frame, e))
         f = self.eval(e.func, frame)
         args = []
         for a in e.args:
@@ -1455,6 +1467,17 @@ def _b_isinstance(self, args, kwargs, node):
     return isinstance(v, cls)
 
 
+def _b_type(self, args, kwargs, node):
+    v = args[0]
+    if isinstance(v, SV):
+        if v.kind == 'enum':
+            return v.cls
+        return {'int': int, 'real': float, 'bool': bool, 'str': str}[v.kind]
+    if isinstance(v, PatStr):
+        return str
+    return type(v)
+
+
 def _b_range(self, args, kwargs, node):
     raise Unsupported('range() with symbolic bound outside a for loop / sum comprehension')
 
@@ -1463,6 +1486,6 @@ _SYM_BUILTINS = {
     builtins.sum: _b_sum, builtins.min: _minmax(True), builtins.max: _minmax(False),
     builtins.float: _b_float, builtins.int: _b_int, builtins.str: _b_str, builtins.bool: _b_bool,
     builtins.len: _b_len, builtins.round: _b_round, math.ceil: _b_ceil, builtins.abs: _b_abs,
-    builtins.list: _b_list, builtins.isinstance: _b_isinstance, builtins.range: _b_range,
+    builtins.list: _b_list, builtins.isinstance: _b_isinstance, builtins.range: _b_range, builtins.type: _b_type,
     builtins.tuple: lambda self, a, k, n: tuple(_b_list(self, a, k, n)),
 }
